@@ -12,7 +12,8 @@ package barriers
 //@   ensures result == strip(self.smsg)
 
 //@ func HandledWithSafeMessage
-//@   props C10 C07
+//@   props C10 C07 C03
+//@   requires[C03] rsafe(msg)
 //@   ensures err == nil ==> result == nil
 //@   ensures err != nil ==> typeis(result, *barrierErr) && result.(*barrierErr).maskedErr == err && result.(*barrierErr).smsg == msg
 
@@ -27,7 +28,8 @@ package barriers
 //@   ensures err != nil ==> typeis(result, *barrierErr) && result.(*barrierErr).maskedErr == err
 
 //@ func HandledWithMessagef
-//@   props C10 C07
+//@   props C10 C07 C03
+//@   requires[C03] safeS(format)
 //@   ensures err == nil ==> result == nil
 //@   ensures err != nil ==> typeis(result, *barrierErr) && result.(*barrierErr).maskedErr == err
 
@@ -40,7 +42,8 @@ package barriers
 //@   ensures typeis(payload, *errorspb.EncodedError) && payload.(*errorspb.EncodedError).Error != nil ==> typeis(result, *barrierErr) && result.(*barrierErr).smsg == msg
 
 //@ func decodeBarrierPrev
-//@   props C05 C01 C07
+//@   props C05 C01 C07 C03 C06 C12
+//@   requires[C03,C12] typeis(payload, *errorspb.EncodedError) && payload.(*errorspb.EncodedError).Error != nil ==> safeEnc(deref(payload.(*errorspb.EncodedError)))
 //@   requires typeis(payload, *errorspb.EncodedError) && payload.(*errorspb.EncodedError).Error != nil ==> complete(deref(payload.(*errorspb.EncodedError)))
 //@   ensures typeis(payload, *errorspb.EncodedError) && payload.(*errorspb.EncodedError).Error != nil ==> typeis(result, *barrierErr)
 
